@@ -3,7 +3,7 @@ from ..core import Report
 from . import c08
 from . import common as cm
 
-FAMILIES = ["expoffset", "exponential", "powerlaw", "peak", "sinusoid", "logistic", "histpeak", "unbinned"]
+FAMILIES = ["growth", "expoffset", "exponential", "powerlaw", "peak", "sinusoid", "logistic", "histpeak", "unbinned"]
 
 
 def constants(depth, families=FAMILIES):
@@ -31,6 +31,22 @@ def run(tier, seed, faults=()):
                               simulate=(300 if tier == "quick" else 3000, 5, seed + 1), max_histories=cap, seed=seed, chunk=4)
     cm.run_replay_stage(rep, "GenNlScenario", cm.gen_cfg(constants(4)), replay_walk_scipy, "scipy: fit, probes, cross-backend, refit",
                         simulate=(70 if tier == "quick" else 800, 5, seed + 2), max_histories=cap // 4, seed=seed, chunk=2)
+    # the iterative algorithm's promise (a fixed point) on every family that has x uncertainties: fit, fit again -- both backends
+    from ..replay import replay_parallel
+    sweep = []
+    for fam in FAMILIES:
+        if fam in ("histpeak", "unbinned"):
+            continue
+        for errs in ("xy", "xymodelrel"):
+            for fixed in (0, 1):
+                w = dict(first=dict(cfg=dict(family=fam, errors=errs, dea="iterative", fixed=fixed, limited=0, limit="inside")), init={},
+                         steps=[dict(a=dict(name="DoFit"), o=dict(kind="none")), dict(a=dict(name="Refit"), o=dict(kind="none"))])
+                sweep.append(w)
+    for fn, label in ((replay_walk, "iminuit"), (replay_walk_scipy, "scipy")):
+        res = replay_parallel(sweep, fn, chunk=2)
+        cm.report_issues(rep, "GenNlScenario", sweep, res, "%s: fixed point of the iterative algorithm, every family" % label)
+        rep.coverage["replayed"]["%s: fixed-point sweep" % label] = dict(histories=len(sweep))
+        rep.coverage["traces_validated_against_impl"] = rep.coverage.get("traces_validated_against_impl", 0) + len(sweep)
     n = rep.coverage.get("traces_validated_against_impl", 0)
     cfgs = {str(sorted(w["first"]["cfg"].items())) for w in raw}
     rep.coverage.update(evaluations=n, distinct_nontrivial=len(cfgs),
